@@ -1,6 +1,6 @@
 /-
   Driver for the stream-table model (C10).
-    hist <streaming 0|1> <lifetime> <linger> <t0> <nprox> <seq0> <mask> <nops> {op}*
+    hist <streaming 0|1> <lifetime> <linger> <hook fails 0|1> <t0> <nprox> <seq0> <mask> <nops> {op}*
         op = call <p> <data> | inext <i> | iclose <i> | pcall <p> | prel <p>
            | open <conn> <data> | next <id> <conn> | close <id> | disc <conn> | hk | tick <dt>
         data = P (not an iterator) | I:<item,...>   item = v<n> (yield n) | r<n> (raise n)
@@ -81,6 +81,7 @@ def resStr : Res → String
   | .raised e => s!"raised{e}"
   | .terminated => "term"
   | .ok => "ok"
+  | .hookError => "hookerr"
 
 def cresStr : CRes → String
   | .iter i => s!"iter{i}"
@@ -102,11 +103,11 @@ def tableStr (t : Table) : String :=
 def listStr (l : List String) : String := if l.isEmpty then "-" else ",".intercalate l
 
 def stepLine : List String → String
-  | "hist" :: streaming :: lifetime :: linger :: t0 :: nprox :: seq0 :: mask :: nops :: rest =>
+  | "hist" :: streaming :: lifetime :: linger :: hook :: t0 :: nprox :: seq0 :: mask :: nops :: rest =>
     match lifetime.toInt?, linger.toInt?, t0.toNat?, nprox.toNat?, seq0.toNat?, mask.toNat?,
           nops.toNat?.bind (fun k => parseCOps k rest) with
     | some lt, some lg, some t, some np, some s0, some m, some ops =>
-      let cfg : Settings := { streaming := streaming == "1", lifetime := lt, linger := lg }
+      let cfg : Settings := { streaming := streaming == "1", lifetime := lt, linger := lg, hookFails := hook == "1" }
       let (s, rs) := crun cfg m (Sys.init t np s0) ops
       ";".intercalate (rs.map cresStr) ++ " | " ++ tableStr s.srv.table ++ " | " ++
         listStr (s.proxies.map fun p => s!"{optStr p.conn}/{p.seq}") ++ " | " ++
